@@ -251,6 +251,7 @@ var timeFuncs = map[string]bool{"Now": true, "Since": true, "Until": true, "Afte
 	"NewTicker": true, "Sleep": true, "Timer": true, "Ticker": true}
 var ctxFuncs = map[string]bool{"WithCancel": true, "WithTimeout": true, "WithDeadline": true}
 var atomicFuncs = map[string]string{}
+var atomicTypes = map[string]bool{"Int32": true, "Int64": true, "Uint32": true, "Uint64": true, "Uintptr": true, "Bool": true, "Pointer": true, "Value": true}
 
 func init() {
 	for _, t := range []string{"Int32", "Int64", "Uint32", "Uint64", "Uintptr"} {
@@ -383,6 +384,9 @@ func (r *rewriter) file(f *ast.File) {
 				if w, ok := atomicFuncs[n.Sel.Name]; ok {
 					r.used = true
 					c.Replace(sel("vrt", w))
+				} else if atomicTypes[n.Sel.Name] {
+					r.used = true
+					c.Replace(sel("vrt", "Atomic"+n.Sel.Name))
 				} else {
 					r.errs = append(r.errs, "unsupported sync/atomic."+n.Sel.Name)
 				}
